@@ -3,8 +3,9 @@
 Content models
     cm   ::= ('EMPTY',) | ('ANY',) | ('MIXED', [name...]) | ('CH', node)
     node ::= ('n', name, occ) | ('s', [node...], occ) | ('c', [node...], occ)        occ in '', '?', '*', '+'
-Membership of a child-name sequence in a 'CH' model is decided twice (position-set/Glushkov simulation and
-re.fullmatch on a one-letter-per-name translation); `cm_accepts` returns (verdict, witnesses_agree).
+Membership of a child-name sequence in a 'CH' model is decided twice: position-set/Glushkov simulation, and re.fullmatch on a
+one-letter-per-name translation (sequences of up to 8 names) or Brzozowski derivatives (longer ones, where a backtracking matcher can
+blow up); `Membership.accepts` returns (verdict, witnesses_agree).
 
 Attribute declarations   {'name','type','enum','kind','dflt','loc'}   type in ATT_TYPES, kind in DEFAULT_KINDS
 Documents                node ::= ('e', name, [(attname, raw)], [node...], emptytag) | ('t', text) | ('ws', s) | ('c', s)
@@ -137,6 +138,64 @@ def node_regex(node, letter):
     else: r = '(?:' + '|'.join(node_regex(x, letter) for x in body) + ')'
     return r + occ if not occ or kind == 'n' else '(?:' + r + ')' + occ
 
+# Brzozowski derivatives with hash-consed, simplified terms: the second witness for long sequences, where a backtracking matcher
+# (Python re) can take exponential time on nested quantifiers such as ((a*)*)*.
+EPS = ('eps',); NUL = ('nul',)
+def _seq(a, b):
+    if a == NUL or b == NUL: return NUL
+    if a == EPS: return b
+    if b == EPS: return a
+    return ('cat', a, b)
+def _alt(items):
+    flat = set()
+    for x in items:
+        if x == NUL: continue
+        if x[0] == 'alt': flat |= set(x[1])
+        else: flat.add(x)
+    if not flat: return NUL
+    if len(flat) == 1: return next(iter(flat))
+    return ('alt', frozenset(flat))
+def _star(a):
+    if a in (EPS, NUL): return EPS
+    if a[0] == 'star': return a
+    return ('star', a)
+def term_of(node):
+    kind, body, occ = node
+    if kind == 'n': t = ('sym', body)
+    elif kind == 's':
+        t = EPS
+        for x in reversed(body): t = _seq(term_of(x), t)
+    else: t = _alt([term_of(x) for x in body])
+    if occ == '?': return _alt([t, EPS])
+    if occ == '*': return _star(t)
+    if occ == '+': return _seq(t, _star(t))
+    return t
+def t_nullable(t):
+    k = t[0]
+    if k in ('eps', 'star'): return True
+    if k in ('nul', 'sym'): return False
+    if k == 'cat': return t_nullable(t[1]) and t_nullable(t[2])
+    return any(t_nullable(x) for x in t[1])
+def t_deriv(t, a, memo):
+    key = (t, a)
+    if key in memo: return memo[key]
+    k = t[0]
+    if k in ('eps', 'nul'): r = NUL
+    elif k == 'sym': r = EPS if t[1] == a else NUL
+    elif k == 'cat':
+        r = _seq(t_deriv(t[1], a, memo), t[2])
+        if t_nullable(t[1]): r = _alt([r, t_deriv(t[2], a, memo)])
+    elif k == 'alt': r = _alt([t_deriv(x, a, memo) for x in t[1]])
+    else: r = _seq(t_deriv(t[1], a, memo), t)
+    memo[key] = r
+    return r
+def accepts_deriv(term, seq, memo):
+    t = term
+    for a in seq:
+        t = t_deriv(t, a, memo)
+        if t == NUL: return False
+    return t_nullable(t)
+
 class Membership:
     """decides membership of child-name sequences in a content model, twice"""
     def __init__(self, cm, declared):
@@ -145,6 +204,7 @@ class Membership:
             self.g = Glushkov(cm[1])
             self.letter = letters_for(sorted(set(cm_names(cm[1])) | set(self.declared)))
             self.rx = re.compile(node_regex(cm[1], self.letter))
+            self.term = term_of(cm[1]); self.dmemo = {}
     def accepts(self, seq):
         """-> (member, witnesses_agree); names outside the alphabet are never members of a CH/MIXED model"""
         cm = self.cm
@@ -153,7 +213,10 @@ class Membership:
         if cm[0] == 'MIXED': return (all(n in cm[1] for n in seq), True)
         a = self.g.accepts(seq)
         if any(n not in self.letter for n in seq): return (False, not a)
-        b = self.rx.fullmatch(''.join(self.letter[n] for n in seq)) is not None
+        if len(seq) > 8:           # long sequence: derivative matcher instead of the backtracking one (see above)
+            b = accepts_deriv(self.term, seq, self.dmemo)
+        else:
+            b = self.rx.fullmatch(''.join(self.letter[n] for n in seq)) is not None
         return (a, a == b)
 
 def gen_cm_node(ch, names, depth, top=True):
@@ -177,7 +240,18 @@ NONDET_SHAPES = [
 ]
 
 def gen_children_cm(ch, names, depth):
-    if ch.chance(1, 5):
+    k = ch.int(0, 9)
+    if k >= 8:
+        # the shapes DTDElementDecl::createChildModel hands to SimpleContentModel: one leaf or two leaves under one operator
+        a = ch.pick(names); b = ch.pick(names)
+        occ = ch.pick(['', '?', '*', '+'])
+        shape = ch.int(0, 4)
+        if shape == 0: return ('CH', ('s', [('n', a, '')], occ))            # (a) (a)? (a)* (a)+
+        if shape == 1: return ('CH', ('s', [('n', a, occ)], ''))            # (a?) (a*) (a+)
+        if shape == 2: return ('CH', ('c', [('n', a, ''), ('n', b, '')], ''))   # (a|b)
+        if shape == 3: return ('CH', ('s', [('n', a, ''), ('n', b, '')], ''))   # (a,b)
+        return ('CH', (ch.pick(['c', 's']), [('n', a, ''), ('n', b, '')], occ))  # (a|b)* (a,b)+ ... (DFA again)
+    if k >= 6:
         ns = list(names) + list(names) + list(names)
         k = ch.int(0, len(NONDET_SHAPES) - 1)
         off = ch.int(0, len(names) - 1)
@@ -644,6 +718,30 @@ def sa_norm_undetected(dtd, doc):
                     else: hit['undet'] = True
             for c in n[3]: walk(c)
     walk(doc['root'])
+    return hit['undet'] and not hit['det']
+
+def sa_ws_undetected(dtd, doc):
+    """known finding C07-sa-ws-before-reference: True if every white-space run that violates the standalone rule (white space directly in an
+    externally declared element-content element) is immediately followed by a reference -- scanCharData hands the buffered characters to
+    sendCharData when it meets '&' and only checks what is left in the buffer at the next '<'"""
+    hit = {'det': False, 'undet': False}
+    def walk(n):
+        if n[0] != 'e': return
+        cm = dtd.elements.get(n[1])
+        if cm and cm[0] == 'CH' and dtd.elem_loc[n[1]] in EXTERNAL_LOCS:
+            kids = n[3]; i = 0
+            while i < len(kids):
+                if kids[i][0] == 'ws' or (kids[i][0] == 't' and kids[i][1] and not kids[i][1].strip(' \t\n\r')):
+                    j = i
+                    while j < len(kids) and kids[j][0] in ('ws', 't'): j += 1
+                    if j < len(kids) and kids[j][0] in ('er', 'cr'): hit['undet'] = True
+                    else: hit['det'] = True
+                    i = j
+                else: i += 1
+        for c in n[3]: walk(c)
+    walk(doc['root'])
+    for e in dtd.entities.values():
+        for c in e['nodes']: walk(c)
     return hit['undet'] and not hit['det']
 
 def enum_multi_only(dtd, doc):
